@@ -35,6 +35,8 @@ def q(s):
 
 
 def pat_text(p):
+    if p == '.':
+        return "?'.'"       # /./ is the any-character expression, not a pattern
     if '/' not in p:
         return '/' + p + '/'
     if '"' not in p:
@@ -92,9 +94,9 @@ def pp(e):
     if k == 'ovrl':
         return '@+:' + term(e[1])
     if k == 'const':
-        return ('```' + e[1] + '```') if '\n' in e[1] else ('`' + e[1] + '`')
+        return ('```' + e[1] + '```') if '\n' in e[1] or '`' in e[1] else ('`' + e[1] + '`')
     if k == 'alert':
-        return '^' * e[2] + (('```' + e[1] + '```') if '\n' in e[1] else ('`' + e[1] + '`'))
+        return '^' * e[2] + (('```' + e[1] + '```') if '\n' in e[1] or '`' in e[1] else ('`' + e[1] + '`'))
     if k == 'void':
         return '()'
     if k == 'fail':
